@@ -1,7 +1,7 @@
 (* Props/C04.v -- property theorems only: Theorem / exact lemma / Check (pins the statement) / Print Assumptions.
    C04: a banded matrix behaves exactly like the dense matrix with the same band. *)
 From Coq Require Import List Arith ZArith QArith Qcanon Lia Floats.
-From OV Require Import Base.Panic Base.Arith Base.Flat Model.Vector Model.Matrix Model.Banded Inst.QcInst Inst.FloatInst Proofs.Banded Proofs.BandedLU Legacy.C04Refuted.
+From OV Require Import Base.Panic Base.Arith Base.Flat Model.Vector Model.Matrix Model.Banded Inst.QcInst Inst.FloatInst Proofs.Banded Proofs.BandedLU Proofs.BandedTotal Proofs.BandedComplete Proofs.BandedDet Legacy.C04Refuted.
 Import ListNotations.
 Local Open Scope nat_scope.
 
@@ -182,6 +182,86 @@ Example band_solve_sound_nonvacuous :
   is_ok (@band_solve AQ ex_S [q 2 1; q (-1) 1; q 6 1; q 5 1]) = true /\
   fl_res (fl_list flat_q) (@band_solve AQ ex_S [q 2 1; q (-1) 1; q 6 1; q 5 1]) = [0; 4;  2; 1; 1;  2; 1; 1;  2; 1; 1;  2; 1; 1]%Z.
 Proof. split; [repeat split|]. split; [reflexivity|]. split; [cbn; lia|]. split; vm_compute; reflexivity. Qed.
+
+(* ---- band_solve never leaves its buffers: on a well-formed band it answers (and the answer is exact), or it
+   refuses with a division by a zero pivot of its own factorisation; no other panic is possible ---- *)
+Theorem band_solve_exact_or_refuses : forall (A : Arith), FieldLaws A -> forall (B : banded A) (b : list A),
+  wfB B -> length b = bn B -> bm1 B <= bn B ->
+  (exists x, band_solve B b = Ok x /\ length x = bn B /\ dense_mulv B x = b) \/
+  (band_solve B b = Panic DivZero /\
+   exists auN alN indexN dN,
+     decompose_gen false B (compact B) (mat_new (bn B) (bm1 B) zero) (repeat 0 (bn B)) = Ok (auN, alN, indexN, dN) /\
+     exists i, i < bn B /\ mat_at auN (bm1 B + bm2 B + 1) i 0 = zero).
+Proof. intros A FL B b. exact (band_solve_exact_or_refuses_lemma FL B b). Qed.
+Check band_solve_exact_or_refuses : forall (A : Arith), FieldLaws A -> forall (B : banded A) (b : list A),
+  wfB B -> length b = bn B -> bm1 B <= bn B ->
+  (exists x, band_solve B b = Ok x /\ length x = bn B /\ dense_mulv B x = b) \/
+  (band_solve B b = Panic DivZero /\
+   exists auN alN indexN dN,
+     decompose_gen false B (compact B) (mat_new (bn B) (bm1 B) zero) (repeat 0 (bn B)) = Ok (auN, alN, indexN, dN) /\
+     exists i, i < bn B /\ mat_at auN (bm1 B + bm2 B + 1) i 0 = zero).
+Print Assumptions band_solve_exact_or_refuses.
+Example band_solve_exact_or_refuses_nonvacuous :   (* both branches occur: ex_S is answered, the zero matrix is refused *)
+  is_ok (@band_solve AQ ex_S [q 2 1; q (-1) 1; q 6 1; q 5 1]) = true /\
+  @band_solve AQ (@band_new AQ 2 1 1 (q 0 1)) [q 1 1; q 1 1] = Panic DivZero.
+Proof. split; vm_compute; reflexivity. Qed.
+
+(* ---- completeness: with the magnitude rule (PivotLaws: abs 0 = 0, |x| is never below 0, 0 < |x| for x <> 0)
+   the solver answers on every band whose dense twin is nonsingular (trivial kernel), whatever the signs of the
+   entries, and the answer is the solution.  This is the half that the pre-repair signed rule fails
+   (band_pivot_legacy_refuted_exact: [[-1,1],[0,1]] is nonsingular and refused). ---- *)
+Theorem band_solve_complete : forall (A : Arith), FieldLaws A -> PivotLaws A -> forall (B : banded A) (b : list A),
+  wfB B -> length b = bn B -> bm1 B <= bn B -> trivial_kernel B ->
+  exists x, band_solve B b = Ok x /\ length x = bn B /\ dense_mulv B x = b.
+Proof. intros A FL PL B b. exact (band_solve_complete_lemma FL PL B b). Qed.
+Check band_solve_complete : forall (A : Arith), FieldLaws A -> PivotLaws A -> forall (B : banded A) (b : list A),
+  wfB B -> length b = bn B -> bm1 B <= bn B -> trivial_kernel B ->
+  exists x, band_solve B b = Ok x /\ length x = bn B /\ dense_mulv B x = b.
+Print Assumptions band_solve_complete.
+(* non-vacuity: [[0,1],[1,5]] (m1 = m2 = 1, loud padding) has a zero leading entry and a trivial kernel *)
+Definition ex_K : banded AQ :=
+  @mkB AQ 2 1 1 (@mkM AQ [q 77 1; q 0 1; q 1 1;   q 1 1; q 5 1; q (-13) 1] 2 3).
+Example band_solve_complete_nonvacuous :
+  PivotLaws AQ /\ wfB ex_K /\ bm1 ex_K <= bn ex_K /\ trivial_kernel ex_K.
+Proof.
+  split; [exact AQ_PivotLaws|]. split; [repeat split|]. split; [cbn; lia|].
+  intros x Hx H. destruct x as [|x0 [|x1 [|? ?]]]; try discriminate Hx.
+  unfold dense_mulv in H. cbn [bn ex_K seq map sum_n nth repeat] in H.
+  assert (H00 : dense_entry ex_K 0 0 = (q 0 1 : AQ)) by reflexivity.
+  assert (H01 : dense_entry ex_K 0 1 = (q 1 1 : AQ)) by reflexivity.
+  assert (H10 : dense_entry ex_K 1 0 = (q 1 1 : AQ)) by reflexivity.
+  assert (H11 : dense_entry ex_K 1 1 = (q 5 1 : AQ)) by reflexivity.
+  rewrite H00, H01, H10, H11 in H.
+  assert (E0 := f_equal (fun l => nth 0 l (@zero AQ)) H). assert (E1 := f_equal (fun l => nth 1 l (@zero AQ)) H).
+  cbn [nth] in E0, E1. clear H.
+  change (@zero AQ) with 0%Qc in *. change (@add AQ) with Qcplus in *. change (@mul AQ) with Qcmult in *.
+  change (q 0 1) with 0%Qc in *. change (q 1 1) with 1%Qc in *.
+  change (T AQ) with Qc in *.
+  assert (Hx1 : x1 = 0%Qc) by (rewrite <- E0; ring).
+  assert (Hx0 : x0 = 0%Qc) by (rewrite <- E1, Hx1; ring).
+  subst. reflexivity.
+Qed.
+
+(* ---- determinant (partial).  Full statement planned in DESIGN: band_det B = determinant (dense B).  Proved:
+   band_det always answers; it is (+-1) * the product of the pivots of the factorisation band_solve uses, so
+   (i) a nonzero determinant makes the solver answer exactly for every right-hand side, and (ii) on a
+   nonsingular band (trivial kernel, magnitude rule) the determinant is nonzero.  Not proved: equality with a
+   determinant function of the dense twin (sign rule, multiplicativity); the check ties band_det to the model
+   on every (n,m1,m2) and judges it against an exact determinant of the dense twin. ---- *)
+Theorem band_det_spec_partial : forall (A : Arith), FieldLaws A -> PivotLaws A -> forall (B : banded A),
+  wfB B -> bm1 B <= bn B ->
+  exists dd, band_det B = Ok dd /\
+    (dd <> zero -> forall b, length b = bn B ->
+       exists x, band_solve B b = Ok x /\ length x = bn B /\ dense_mulv B x = b) /\
+    (trivial_kernel B -> dd <> zero).
+Proof. intros A FL PL B. exact (band_det_spec_partial_lemma FL PL B). Qed.
+Check band_det_spec_partial : forall (A : Arith), FieldLaws A -> PivotLaws A -> forall (B : banded A),
+  wfB B -> bm1 B <= bn B ->
+  exists dd, band_det B = Ok dd /\
+    (dd <> zero -> forall b, length b = bn B ->
+       exists x, band_solve B b = Ok x /\ length x = bn B /\ dense_mulv B x = b) /\
+    (trivial_kernel B -> dd <> zero).
+Print Assumptions band_det_spec_partial.
 
 (* ---- the pre-repair pivot rule (signed comparison, unconditional division) is refuted by the committed witness.
    Exact tier here; the binary64 half ([[-2,1],[1e-20,1]] x = [-1,1]: legacy answers [0,1], repaired [1,1]) is
